@@ -648,6 +648,120 @@ def search_returns(bf):
     return out
 
 
+class _Unknown(Exception):
+    pass
+
+
+_WIDTH = {'u8': 8, 'u16': 16, 'u32': 32, 'u64': 64, 'usize': 64, 'i8': 8, 'i16': 16, 'i32': 32, 'i64': 64, 'isize': 64}
+
+
+def eval_term(t, env):
+    """value of an integer / boolean / Option def-chain term when the terms in `env` (term -> int) are given; raises _Unknown for anything
+    else. Used to decide guards over ONE counter by enumeration of a finite range (thresholds and moduli are small constants)."""
+    if t in env:
+        return env[t]
+    if not isinstance(t, tuple) or not t:
+        raise _Unknown()
+    h = t[0]
+    if h in ('ref', 'deref') and len(t) == 2:
+        return eval_term(t[1], env)
+    if h == 'const':
+        return int(t[1]) if not isinstance(t[1], bool) else t[1]
+    if h == 'cast':
+        v = eval_term(t[2], env)
+        if isinstance(v, bool):
+            v = int(v)
+        w = _WIDTH.get(t[1])
+        if not isinstance(v, int) or w is None:
+            raise _Unknown()
+        v &= (1 << w) - 1
+        if t[1].startswith('i') and v >= 1 << (w - 1):
+            v -= 1 << w
+        return v
+    if h in ('Add', 'Sub', 'Mul', 'Div', 'Rem', 'BitAnd', 'BitOr', 'Shr', 'Shl') and len(t) == 3:
+        a, b = eval_term(t[1], env), eval_term(t[2], env)
+        if not (isinstance(a, int) and isinstance(b, int)):
+            raise _Unknown()
+        if h == 'Add':
+            return a + b
+        if h == 'Sub':
+            if a - b < 0:
+                raise _Unknown()        # would panic / wrap: not a value this decision may rely on
+            return a - b
+        if h == 'Mul':
+            return a * b
+        if h in ('Div', 'Rem'):
+            if b == 0:
+                raise _Unknown()
+            return a // b if h == 'Div' else a % b
+        if h == 'BitAnd':
+            return a & b
+        if h == 'BitOr':
+            return a | b
+        return a >> b if h == 'Shr' else a << b
+    if h in ('Lt', 'Le', 'Gt', 'Ge', 'Eq', 'Ne') and len(t) == 3:
+        a, b = eval_term(t[1], env), eval_term(t[2], env)
+        return {'Lt': a < b, 'Le': a <= b, 'Gt': a > b, 'Ge': a >= b, 'Eq': a == b, 'Ne': a != b}[h]
+    if h == 'Not' and len(t) == 2:
+        v = eval_term(t[1], env)
+        if isinstance(v, bool):
+            return not v
+        raise _Unknown()
+    if h == 'call' and isinstance(t[1], str):
+        nm = t[1]
+        args = t[2]
+        if nm.endswith('::is_multiple_of') and len(args) == 2:
+            a, b = eval_term(args[0], env), eval_term(args[1], env)
+            return (a == 0) if b == 0 else a % b == 0
+        if nm.endswith('::checked_sub') and len(args) == 2:
+            a, b = eval_term(args[0], env), eval_term(args[1], env)
+            return ('opt', a - b if a >= b else None)
+        if nm.endswith('::saturating_sub') and len(args) == 2:
+            a, b = eval_term(args[0], env), eval_term(args[1], env)
+            return max(a - b, 0)
+        if nm.endswith(('Option::is_some', 'Option::is_none')) and len(args) == 1:
+            v = eval_term(args[0], env)
+            if isinstance(v, tuple) and v[0] == 'opt':
+                return (v[1] is not None) == nm.endswith('is_some')
+        raise _Unknown()
+    if h == 'discr' and len(t) == 2:
+        v = eval_term(t[1], env)
+        if isinstance(v, tuple) and v[0] == 'opt':
+            return 1 if v[1] is not None else 0
+        raise _Unknown()
+    if h == 'field' and len(t) == 3 and t[2] == '0' and isinstance(t[1], tuple) and t[1][:1] == ('as',) and t[1][2] == 'Some':
+        v = eval_term(t[1][1], env)
+        if isinstance(v, tuple) and v[0] == 'opt' and v[1] is not None:
+            return v[1]
+        raise _Unknown()
+    raise _Unknown()
+
+
+def conds_hold(conds, env):
+    """do the path conditions (in dominance order) all hold under env? True / False, or None when one cannot be evaluated"""
+    try:
+        for x in conds:
+            v = eval_term(x[0], env)
+            val = x[1]
+            if isinstance(v, bool):
+                want = True if cond_true(x) else False if cond_false(x) else None
+                if want is None:
+                    return None
+                if v != want:
+                    return False
+            elif isinstance(v, int):
+                if isinstance(val, tuple) and val[:1] == ('not',):
+                    if v in val[1]:
+                        return False
+                elif isinstance(val, tuple) and v not in val:
+                    return False
+            else:
+                return None
+        return True
+    except _Unknown:
+        return None
+
+
 def flag_meaning(bf, cond):
     """a condition on a boolean flag local that is set to true in exactly one place (`matches!`, `let ok = a && b`):
     returns (polarity, [conditions under which the flag is true that are not common to all its definitions]) or None"""
